@@ -141,6 +141,44 @@ def handle (op : String) (args : List String) (impl : String) : Option Verdict :
           | none => false
       | _ => false
     return ⟨model, ok, s!"histbtc:deliveries={min runs.length 4}:fault={runs.any fun r => faulted r.1 r.2.1}"⟩
+  | "lookupevm", [src, dst, nonce, ans] => some <| Id.run do
+    let some src := src.toNat? | return bad
+    let some dst := dst.toNat? | return bad
+    let some nonce := nonce.toNat? | return bad
+    let some a := (ans.toList.head?).bind ansOf | return bad
+    let q := lookupQuery src dst nonce
+    let model := s!"isProposalExecuted:{q.domain}:{q.nonce}|{ans}"
+    let ok := match impl.splitOn "|" with
+      | [asked, r] =>
+        match asked.splitOn ":", (r.toList.head?).bind ansOf with
+        | [m, d, n], some r =>
+          m == "isProposalExecuted" &&
+          (match d.toNat?, n.toNat? with
+           | some d, some n => decide (PLookup src nonce a ⟨d, n⟩ r)
+           | _, _ => false)
+        | _, _ => false
+      | _ => false
+    return ⟨model, ok, s!"lookupevm:{ans}"⟩
+  | "lookupsub", [src, dst, nonce, ans] => some <| Id.run do
+    let some src := src.toNat? | return bad
+    let some dst := dst.toNat? | return bad
+    let some nonce := nonce.toNat? | return bad
+    let some a := (ans.toList.head?).bind ansOf | return bad
+    let q := lookupQuery src dst nonce
+    let model := s!"sygma_isProposalExecuted:uint64={q.nonce}:uint8={q.domain}|{ans}"
+    let ok := match impl.splitOn "|" with
+      | [asked, r] =>
+        match asked.splitOn ":", (r.toList.head?).bind ansOf with
+        | [m, n, d], some r =>
+          m == "sygma_isProposalExecuted" &&
+          (match ((d.splitOn "=").getD 1 "").toNat?, ((n.splitOn "=").getD 1 "").toNat? with
+           | some dv, some nv =>
+             (d.splitOn "=").head? == some "uint8" && (n.splitOn "=").head? == some "uint64" &&
+             decide (PLookup src nonce a ⟨dv, nv⟩ r)
+           | _, _ => false)
+        | _, _ => false
+      | _ => false
+    return ⟨model, ok, s!"lookupsub:{ans}"⟩
   | _, _ => none
 
 end Sygma.Drv.C03
